@@ -11,6 +11,7 @@ INVARIANT DC05_Upwind
 INVARIANT DC06
 INVARIANT DC01
 INVARIANT DC01_Geometric
+INVARIANT DC01_Open
 INVARIANT DC04
 INVARIANT DC03
 INVARIANT DC07
